@@ -11,7 +11,8 @@ import (
 )
 
 func genExpr(t *rapid.T, depth int) *Expr {
-	ks := []string{"const", "const", "arg", "arg", "sload", "callvalue", "selfbalance", "balance", "caller", "address", "number", "timestamp", "coinbase", "gasprice", "extcodesize", "origin"}
+	ks := []string{"const", "const", "arg", "arg", "sload", "callvalue", "selfbalance", "balance", "caller", "address", "number", "timestamp", "coinbase", "gasprice", "extcodesize", "origin",
+		"gaslimit", "chainid", "basefee", "difficulty", "blockhash", "gasleft", "codesize", "calldatasize", "returndatasize"}
 	if depth < 2 {
 		ks = append(ks, "add", "half")
 	}
